@@ -10,6 +10,7 @@ EXPLANATION = (
     "errors and yields each kept row once. Each of the four is decided on the code's shape: (1)-(3) by walking the MIR decision tree of the match "
     "once per operand variant (TRUTH, no execution), (4) on the CFG of FilterIter::next. Not decided: that evaluation of p is deterministic across "
     "the three queries, and that predicates pushed down into match / index plans are equivalent to the residual filter (C15 covers the index side)."
+    " C19.1 also requires that the conversion cannot be bypassed (no return that avoids it, no other evaluator entry called). C19.5: inline pattern properties overwrite WHERE-derived hints in the match compiler's predicate map."
 )
 ASSUMPTIONS = ["predicates evaluate deterministically for a fixed row and snapshot (no clause decides this)"]
 
